@@ -48,6 +48,19 @@ TEMPLATES = {
     "TlsGdToLocalExecLarge": (-3, [0x64, 0x48, 0x8B, 0x04, 0x25, 0, 0, 0, 0, 0x48, 0x8D, 0x80, 0, 0, 0, 0, 0x66, 0x0F, 0x1F, 0x44, 0, 0], 12),
     "TlsGdToInitialExec": (-4, [0x64, 0x48, 0x8B, 0x04, 0x25, 0, 0, 0, 0, 0x48, 0x03, 0x05], 12),
     "SkipTlsDescCall": (0, [0x66, 0x90], None),
+    # LD -> LE (psABI / binutils elf_x86_64_relocate_section R_X86_64_TLSLD): the lea+call pair becomes padding prefixes + mov %fs:0,%rax
+    "TlsLdToLocalExec": (-3, [0x66, 0x66, 0x66, 0x64, 0x48, 0x8B, 0x04, 0x25, 0, 0, 0, 0], None),
+    "TlsLdToLocalExecNoPlt": (-3, [0x66, 0x66, 0x66, 0x66, 0x64, 0x48, 0x8B, 0x04, 0x25, 0, 0, 0, 0], None),
+    "TlsLdToLocalExec64": (-3, [0x66, 0x66, 0x66, 0x66, 0x2E, 0x0F, 0x1F, 0x84, 0, 0, 0, 0, 0, 0x64, 0x48, 0x8B, 0x04, 0x25, 0, 0, 0, 0], None),
 }
 # kinds that remove a GOT indirection for an address: only valid when the symbol cannot be interposed
 NEEDS_NON_INTERPOSABLE = {"MovIndirectToLea", "CallIndirectToRelative", "JmpIndirectToRelative"}
+
+# TLSDESC rewrites that keep the destination register (psABI TLS "General Dynamic/TLSDESC -> IE/LE" templates; Intel SDM:
+# C7 /0 MOV r/m64,imm32 takes the register in ModRM.rm (extended by REX.B); 8B /r MOV r64,r/m64 takes it in ModRM.reg
+# (extended by REX.R), and with mod=00 rm=101 the operand is RIP-relative, for which REX.B is ignored).
+# Bit strings are written MSB first: 0/1 constants, R = old REX.R (bit 2 of the byte at offset-3), r = old ModRM.reg bits 5,4,3.
+REGFORMS = {
+    ("TlsDescToLocalExec", (3,)): {"rex": "0100100R", "opcode": 0xC7, "modrm": "11000rrr", "imm_zero": True, "addend": 0},
+    ("TlsDescToInitialExec", ()): {"rex": "01001R00", "opcode": 0x8B, "modrm": "00rrr101", "imm_zero": True, "addend": -4},
+}
